@@ -28,7 +28,9 @@ var sigmaLex12 = []string{"{{", "}}", "{%", "%}", "-", " ", "x", "|", ":", ".", 
 
 // Σ_expr: expression tokens.
 var sigmaExpr = []string{"x", "1", "-1", "1.5", `"s"`, "nil", "true", ".a", ".size", "[", "]", "(", ")", "..", "|", ":", ",",
-	"f", "==", "<", "contains", "and", "or", "in", "=", "99999999999999999999", "first", "limit:", "reversed"}
+	"f", "==", "<", "contains", "and", "or", "in", "=", "99999999999999999999", "first", "limit:", "reversed",
+	// the expression lexer's statement selectors are ordinary input bytes too
+	"%assign ", "{%cycle ", "%loop ", "{%when ", "%", "{%", ";"}
 
 // argument positions for expression token sequences
 var exprPositions = []struct{ pre, post string }{
